@@ -77,6 +77,18 @@ func (e *Engine) VerifyFunction(fn *ssa.Function) (res *FuncResult) {
 			}
 			fx.extendPC(st, g)
 		}
+		if ct.Flags["perwrite"] {
+			fx.allowed = map[string][]Term{}
+			fx.allowedWhole = map[string]bool{}
+			for i, m := range ct.Modifies {
+				env := fr.specEnv(st, nil, nil)
+				if err := fr.modTargets(env, m, func(key string, ref Term) {
+					fx.allowed[key] = append(fx.allowed[key], ref)
+				}, func(key string) { fx.allowedWhole[key] = true }); err != nil {
+					fx.unsupported = append(fx.unsupported, fmt.Sprintf("modifies %q: %v", ct.ModSrc[i], err))
+				}
+			}
+		}
 		if len(ct.Requires) > 0 {
 			o := fx.oblige(st.clone(), "cover", "requires-satisfiable", False, token.NoPos)
 			if o != nil {
@@ -136,7 +148,7 @@ func (fr *Frame) checkReturn(r returnInfo, ct *FuncContract) {
 		work := r.st.clone()
 		fx.oblige(work, "post", clauseLabel(c, i), g, token.NoPos)
 	}
-	if ct.HasMod {
+	if ct.HasMod && !ct.Flags["perwrite"] {
 		fr.checkFrame(r, ct, env)
 	}
 	fr.checkErrProp(r, ct)
@@ -370,7 +382,7 @@ func (fr *Frame) checkErrProp(r returnInfo, ct *FuncContract) {
 	errRet := fx.materialize(r.vals[n-1], sig.Results().At(n-1).Type())
 	var conds []Term
 	conds = append(conds, Not(Eq(IfTag(errRet), Int(0))))
-	for i := 0; i < n-1; i++ {
+	for i := 0; i < n-1 && ct.ErrPropNil; i++ {
 		rt := sig.Results().At(i).Type()
 		v := fx.materialize(r.vals[i], rt)
 		switch v.Sort {
